@@ -2,12 +2,16 @@
 
 Imports NOTHING from Fandango.  A model node is a mutable list
 
-    [sym, sender, recipient, children]
+    [sym, sender, recipient, children, read_only, sources]
 
 with ``sym = ("N", "<name>")`` for a nonterminal and ``sym = ("T", value)`` for a terminal
 leaf, ``value`` being ``str`` (text), ``bytes`` (binary) or ``int`` 0/1 (one bit).
+``read_only`` is the node's flag, ``sources`` the list of generator-argument trees hanging off
+the node (NOT part of size / hash / equality / value: those are functions of the first four
+slots only, see ``core``).
 ``freeze`` turns a model into nested tuples (hashable, comparable in C); ``thaw`` is the
-inverse.  Paths are tuples of child indices from the root.
+inverse.  Paths are tuples of steps from the root: a step ``i >= 0`` is child ``i``, a step
+``i < 0`` is source ``-1 - i``.
 
 Two groups of functions:
 
@@ -23,7 +27,7 @@ from __future__ import annotations
 
 from typing import Any, Iterable, Optional
 
-SYM, SENDER, RECIPIENT, KIDS = 0, 1, 2, 3
+SYM, SENDER, RECIPIENT, KIDS, RO, SRC = 0, 1, 2, 3, 4, 5
 
 CONV_ERROR = "FandangoConversionError"
 
@@ -39,20 +43,50 @@ def TM(value) -> tuple:
     return ("T", value)
 
 
-def node(sym, children: Optional[Iterable[list]] = None, sender=None, recipient=None) -> list:
-    return [sym, sender, recipient, list(children or [])]
+def node(sym, children: Optional[Iterable[list]] = None, sender=None, recipient=None, read_only=False, sources: Optional[Iterable[list]] = None) -> list:
+    return [sym, sender, recipient, list(children or []), bool(read_only), list(sources or [])]
 
 
 def freeze(m) -> tuple:
-    return (m[0], m[1], m[2], tuple([freeze(c) for c in m[3]]))
+    return (m[0], m[1], m[2], tuple([freeze(c) for c in m[3]]), m[4], tuple([freeze(c) for c in m[5]]) if m[5] else ())
 
 
 def thaw(f) -> list:
-    return [f[0], f[1], f[2], [thaw(c) for c in f[3]]]
+    if len(f) == 4:  # a core (see below): no flag, no sources
+        return [f[0], f[1], f[2], [thaw(c) for c in f[3]], False, []]
+    return [f[0], f[1], f[2], [thaw(c) for c in f[3]], f[4], [thaw(c) for c in f[5]]]
 
 
 def clone(m) -> list:
-    return [m[0], m[1], m[2], [clone(c) for c in m[3]]]
+    return [m[0], m[1], m[2], [clone(c) for c in m[3]], m[4], [clone(c) for c in m[5]]]
+
+
+def core(f) -> tuple:
+    """What size / hash / equality / the value are functions of: symbol, sender, recipient and the
+    children (recursively).  Works on models and on frozen models; returns a frozen 4-tuple."""
+    return (f[0], f[1], f[2], tuple([core(c) for c in f[3]]))
+
+
+def has_sources(m) -> bool:
+    """Is there a node with a non-empty sources list anywhere (below children or sources)?"""
+    if m[5]:
+        return True
+    for c in m[3]:
+        if has_sources(c):
+            return True
+    return False
+
+
+def has_read_only(m) -> bool:
+    if m[4]:
+        return True
+    for c in m[3]:
+        if has_read_only(c):
+            return True
+    for c in m[5]:
+        if has_read_only(c):
+            return True
+    return False
 
 
 def is_nt(m) -> bool:
@@ -67,26 +101,74 @@ def size(m) -> int:
     return 1 + sum(size(c) for c in m[3])
 
 
+def total(m) -> int:
+    """Number of node objects reachable through children AND sources."""
+    return 1 + sum(total(c) for c in m[3]) + sum(total(c) for c in m[5])
+
+
 def depth(m) -> int:
     return 1 + max((depth(c) for c in m[3]), default=0)
 
 
 def at(m, path):
     for i in path:
-        m = m[3][i]
+        m = m[3][i] if i >= 0 else m[5][-1 - i]
     return m
 
 
 def preorder_paths(m, prefix=()) -> list:
+    """Children only (the order of flatten())."""
     out = [prefix]
     for i, c in enumerate(m[3]):
         out.extend(preorder_paths(c, prefix + (i,)))
     return out
 
 
+def all_paths(m, prefix=()) -> list:
+    """Every node object reachable from ``m``: the node, its children's subtrees, then its
+    sources' subtrees (the order in which TreeSim scans a real tree)."""
+    out = [prefix]
+    for i, c in enumerate(m[3]):
+        out.extend(all_paths(c, prefix + (i,)))
+    for i, c in enumerate(m[5]):
+        out.extend(all_paths(c, prefix + (-1 - i,)))
+    return out
+
+
 def path_of_index(m, idx: int):
-    ps = preorder_paths(m)
+    ps = all_paths(m)
     return ps[idx] if 0 <= idx < len(ps) else None
+
+
+def in_source(path) -> bool:
+    for i in path:
+        if i < 0:
+            return True
+    return False
+
+
+def source_base(path) -> tuple:
+    """Path of the innermost source root the addressed node lives in (() = not below a source)."""
+    k = -1
+    for j, i in enumerate(path):
+        if i < 0:
+            k = j
+    return tuple(path[: k + 1])
+
+
+def child_equals_source(root, path) -> bool:
+    """Walking up from the addressed node along CHILD steps (stopping at a real source boundary):
+    is there a node that is structurally equal (``core``) to one of its parent's sources?"""
+    for j in range(len(path) - 1, -1, -1):
+        if path[j] < 0:
+            return False
+        parent = at(root, path[:j])
+        if parent[5]:
+            me = core(at(root, path[: j + 1]))
+            for s in parent[5]:
+                if core(s) == me:
+                    return True
+    return False
 
 
 def show(m, limit: int = 160) -> str:
@@ -94,14 +176,19 @@ def show(m, limit: int = 160) -> str:
 
     def r(n):
         s = n[0]
+        ro = "!" if n[4] else ""
+        src = "[src " + ",".join(r(c) for c in n[5]) + "]" if n[5] else ""
         if s[0] == "T":
-            return repr(s[1])
+            return repr(s[1]) + ro + src
         head = s[1]
+        if head.startswith("<__") and ":" in head and "_" in head[3:]:
+            head = head[: head.rfind("_")] + ">"  # control-flow node: drop the per-spec id suffix
+        head += ro
         if n[1] is not None or n[2] is not None:
             head += "{%s>%s}" % (n[1], n[2])
         if not n[3]:
-            return head
-        return head + "(" + ",".join(r(c) for c in n[3]) + ")"
+            return head + src
+        return head + "(" + ",".join(r(c) for c in n[3]) + ")" + src
 
     t = r(m)
     return t if len(t) <= limit else t[: limit - 3] + "..."
@@ -128,6 +215,23 @@ def set_sender(root, path, who) -> None:
 
 def set_recipient(root, path, who) -> None:
     at(root, path)[2] = who
+
+
+def set_all_read_only(root, path, flag: bool) -> None:
+    """The node, its children and its sources, recursively."""
+
+    def rec(n):
+        n[4] = bool(flag)
+        for c in n[3]:
+            rec(c)
+        for c in n[5]:
+            rec(c)
+
+    rec(at(root, path))
+
+
+def set_sources(root, path, srcs: list) -> None:
+    at(root, path)[5] = list(srcs)
 
 
 def append_valid(root, path, hookin) -> bool:
@@ -174,57 +278,149 @@ def prefix(root, path):
 
 
 def replace_multiple(root, repl: list) -> list:
-    """``repl`` = [(path, replacement model)], paths pairwise not prefixes of each other and
-    symbols equal: a new tree in which each addressed subtree is a copy of its replacement."""
-    table = {tuple(p): r for p, r in repl}
+    """``repl`` = [(child-step path, replacement model)] for a grammar WITHOUT generators.
+
+    What ``DerivationTree.replace_multiple`` does (read off the unchanged product):
+
+    * the batch is a table path -> replacement; the same path twice: the last pair wins;
+    * the tree is rebuilt top-down; a node whose path is in the table, whose symbol equals the
+      replacement's symbol and which is NOT read-only becomes a copy of the replacement (sender,
+      recipient and read-only flags of the replacement are kept); a read-only replacee is refused
+      (it is rebuilt like any other node);
+    * the walk then CONTINUES INSIDE THE COPY with the same path arithmetic: for nested replacees
+      (a node and one of its descendants in one batch) the inner path is looked up in the outer
+      replacement, and is applied there iff a non-read-only node with the inner replacement's symbol
+      sits at that path;
+    * no node of the result keeps sources (no symbol of the grammar has a generator)."""
+    table = {}
+    for p, r in repl:
+        table[tuple(p)] = r
 
     def rec(n, cur):
         r = table.get(cur)
-        if r is not None and r[0] == n[0]:
-            return clone(r)
-        return [n[0], n[1], n[2], [rec(c, cur + (i,)) for i, c in enumerate(n[3])]]
+        if r is not None and r[0] == n[0] and not n[4]:
+            n = r
+        return [n[0], n[1], n[2], [rec(c, cur + (i,)) for i, c in enumerate(n[3])], n[4], []]
 
     return rec(root, ())
 
 
-def deepcopy(root, path, copy_children: bool, copy_parent: bool):
-    """Returns (model of the tree the copy lives in, path of the copy inside it)."""
+def deepcopy(root, path, copy_children: bool, copy_parent: bool, copy_params: bool = True):
+    """Returns (model of the tree the copy lives in, path of the copy inside it).  The flags apply
+    to the copied node only; everything else that is reachable is copied completely."""
     if copy_parent:
         new = clone(root)
+        nd = at(new, path)
         if not copy_children:
-            at(new, path)[3] = []
+            nd[3] = []
+        if not copy_params:
+            nd[5] = []
         return new, tuple(path)
     sub = clone(at(root, path))
     if not copy_children:
         sub[3] = []
+    if not copy_params:
+        sub[5] = []
     return sub, ()
+
+
+def is_controlflow(m) -> bool:
+    return m[0][0] == "N" and m[0][1].startswith("<__")
+
+
+def has_controlflow(m) -> bool:
+    if is_controlflow(m) or (m[0][0] == "N" and m[0][1].startswith("<*")):
+        return True
+    for c in m[3]:
+        if has_controlflow(c):
+            return True
+    return False
+
+
+def collapse(m) -> Optional[list]:
+    """Grammar.collapse: every ``<__...>`` node is replaced by its (collapsed) children, in place in
+    the child list of the nearest ordinary ancestor; every other node is copied with its flags and
+    its sources.  None = the root itself is a control-flow node (documented error)."""
+    if is_controlflow(m):
+        return None
+
+    def rec(n) -> list:
+        kids: list = []
+        for c in n[3]:
+            kids.extend(rec(c))
+        if is_controlflow(n):
+            return kids
+        return [[n[0], n[1], n[2], kids, n[4], [clone(s) for s in n[5]]]]
+
+    return rec(m)[0]
 
 
 # ----------------------------------------------------------------------------
 # selectors (paths, in the order the accessors are documented to return nodes)
 # ----------------------------------------------------------------------------
 def find_all_trees(m, name, prefix=()) -> list:
-    """Post-order over nonterminal children: descendants first, the node itself last."""
+    """Post-order over nonterminal children, then nonterminal sources: descendants first, the
+    node itself last."""
     out = []
     for i, c in enumerate(m[3]):
         if c[0][0] == "N":
             out.extend(find_all_trees(c, name, prefix + (i,)))
+    for i, c in enumerate(m[5]):
+        if c[0][0] == "N":
+            out.extend(find_all_trees(c, name, prefix + (-1 - i,)))
     if m[0] == ("N", name):
         out.append(prefix)
     return out
 
 
 def find_direct_trees(m, name, prefix=()) -> list:
-    return [prefix + (i,) for i, c in enumerate(m[3]) if c[0] == ("N", name)]
+    return [prefix + (i,) for i, c in enumerate(m[3]) if c[0] == ("N", name)] + [prefix + (-1 - i,) for i, c in enumerate(m[5]) if c[0] == ("N", name)]
 
 
-def find_all_nodes(m, name, prefix=()) -> list:
+def find_all_nodes(m, name, prefix=(), exclude_read_only: bool = True) -> list:
+    """Pre-order; a nonterminal node's children, then its sources; nothing below a terminal."""
     out = []
     if m[0][0] == "N":
-        if m[0] == ("N", name):
+        if m[0] == ("N", name) and not (exclude_read_only and m[4]):
             out.append(prefix)
         for i, c in enumerate(m[3]):
-            out.extend(find_all_nodes(c, name, prefix + (i,)))
+            out.extend(find_all_nodes(c, name, prefix + (i,), exclude_read_only))
+        for i, c in enumerate(m[5]):
+            out.extend(find_all_nodes(c, name, prefix + (-1 - i,), exclude_read_only))
+    return out
+
+
+def nodes_named(m, name, prefix=()) -> list:
+    """Child-step paths of every node with nonterminal ``name`` (flags ignored)."""
+    out = []
+    if m[0] == ("N", name):
+        out.append(prefix)
+    for i, c in enumerate(m[3]):
+        out.extend(nodes_named(c, name, prefix + (i,)))
+    return out
+
+
+def names_below_sources(m) -> set:
+    """Names of the nonterminal nodes that are only reachable through a source of ``m`` or of one
+    of its descendants."""
+    out = set()
+    for c in m[5]:
+        out |= non_terminal_symbols(c, False)
+    for c in m[3]:
+        out |= names_below_sources(c)
+    return out
+
+
+def non_terminal_symbols(m, exclude_read_only: bool = True) -> set:
+    """Names of the nonterminals of every node below children and sources (read-only nodes
+    themselves left out on request; their descendants are still visited)."""
+    out = set()
+    if m[0][0] == "N" and not (exclude_read_only and m[4]):
+        out.add(m[0][1])
+    for c in m[3]:
+        out |= non_terminal_symbols(c, exclude_read_only)
+    for c in m[5]:
+        out |= non_terminal_symbols(c, exclude_read_only)
     return out
 
 
